@@ -24,6 +24,8 @@ CLAIMED = {
  "C15": ("metamorphic testing: equivalent re-encodings of every function's signature must give the same verdicts, executions and key-wise wiring", "§2 C15"),
  "C16": ("metamorphic testing: permuted registration blocks, moved scope creations and toggled DeferAcyclicVerification must give the same verdicts and wiring", "§2 C16"),
  "C17": ("differential testing: DryRun container vs normal container on the same generated history", "§2 C17"),
+ "C18": ("signature-grammar generation with pre-filled Info structs + model flattening oracle; function-bank histories for ID distinctness/stability", "§2 C18"),
+ "C19": ("function-bank program generation + own DOT parser + structural comparison with the registration model; error graphs judged by a path-validity predicate; hostile names/types for syntax", "§2 C19"),
  "C20": ("fault-plan histories over a bank of declared functions with a mock clock + one-to-one callback/execution correspondence oracle", "§2 C20"),
 }
 LEVEL_TEXT = "exploration: generated-input search (rapid, sharded over 8-16 processes) against an explicit oracle; the property held on every generated history of the stated shapes and sizes. It never establishes absence; evidence reports evaluations, distinct non-trivial cases by the stated rule, class histogram and samples."
